@@ -1218,6 +1218,20 @@ class C07(Prop):
                 yield iso("call", [{"t": "call", "name": "m", "args": [["int", 1]], "kwargs": [["k", ["int", 2]]]}],
                           [], {"a": "1", "c": "7", "kw": "2"}, data, mode)
 
+        # items of `render ... for` do not see one another's assignments
+        bodies = [
+            "[{{ x }}{% assign x = 'L' %}]", "[{{ z }}{{ x }}{% assign z = x %}]", "[{{ c }}{% capture c %}C{{ x }}{% endcapture %}]",
+            "[{{ x }}{% for x in (7..8) %}{% assign x = 0 %}{% endfor %}{% assign x = nil %}]",
+            "[{{ k }}{{ x }}{% assign k = 'K' %}]", "[{% if seen %}again{% else %}first{% endif %}{% assign seen = true %}]",
+            "[{{ x }}{% liquid\nassign x = 5\necho x %}]", "[{{ n }}{% increment n %}]",
+        ]
+        for body in bodies:
+            for mode in ("sync", "async"):
+                for items, n in (("(1..3)", 3), ("xs", 2)):
+                    for args in ("", ", k: 'A'"):
+                        yield {"kind": "items", "templates": {"p": body}, "items": items, "n": n, "alias": "x",
+                               "args": args, "data": {"xs": ["a", "b"]}, "mode": mode}
+
         # O5 with a resource-limit error raised by the scope-pushing construct itself
         def withs(n: int, inner: list[dict[str, Any]]) -> list[dict[str, Any]]:
             for k in range(n):
@@ -1269,11 +1283,54 @@ class C07(Prop):
                 self._check_refuse(case, res)
             elif kind == "block":
                 self._check_block(case, res)
+            elif kind == "items":
+                self._check_items(case, res)
             else:
                 self._check_balance(case, res)
         except RecursionError:
             res.labels.append("recursion")
         return res
+
+    # ------------------------------------------------------------------ items of `render ... for`
+
+    def _check_items(self, case: Any, res: Result) -> None:
+        """`render 'p' for xs`: p is rendered once per item, each time seeing only global data and its
+        arguments - so what p assigns, captures or counts while rendering one item cannot be seen while it
+        renders the next, and the output is the concatenation of the single-item renders."""
+        env = make_env(case["templates"], shopify=True)
+        items = case["items"]
+        alias = case["alias"]
+        args = case["args"]
+
+        def run(src: str) -> tuple[str, str]:
+            try:
+                t = env.from_string(src)
+                if case.get("mode") == "async":
+                    return ("ok", run_coro(t.render_async(**case["data"])))
+                return ("ok", t.render(**case["data"]))
+            except LiquidError as err:
+                return ("err", type(err).__name__)
+
+        whole = run("{% render 'p' for " + items + " as " + alias + args + " %}")
+        res.evaluations = 1
+        res.nontrivial = True
+        if whole[0] != "ok":
+            res.labels.append("items:error")
+            return
+        # the reference: one `render ... with` per item, the forloop helper stripped from both
+        n = case["n"]
+        singles = []
+        for k in range(n):
+            one = run("{% assign it = " + items + " %}{% render 'p' with it[" + str(k) + "] as " + alias + args + " %}")
+            res.evaluations += 1
+            if one[0] != "ok":
+                res.labels.append("items:single-error")
+                return
+            singles.append(one[1])
+        if whole[1] != "".join(singles):
+            res.fail("O1", "render-for:items-interfere",
+                     f"render 'p' for {items} gave {whole[1]!r}; the items rendered one by one give {singles!r}; "
+                     f"p={case['templates']['p']!r}")
 
     # ------------------------------------------------------------------ O1 / O2 / O0
 
@@ -1567,6 +1624,9 @@ class C07(Prop):
         return s
 
     def sample(self, case: Any) -> Any:
+        if case["kind"] == "items":
+            return {"kind": "items", "src": "{% render 'p' for " + case["items"] + " as x" + case["args"] + " %}",
+                    "templates": case["templates"]}
         src, templates = self._sources(case, {})
         return {"kind": case["kind"], "src": src[:300], "templates": {k: v[:120] for k, v in list(templates.items())[:3]}}
 
